@@ -98,6 +98,18 @@ pub fn build(rng: &mut Rng, o: &mut Outcome) -> Spreadsheet {
             ws.get_cell_mut((col, row)).set_value_number(i as f64);
         }
     }
+    // cells that carry a value and no formatting of their own, created before rows / columns are formatted: a cell keeps
+    // its own (default) formatting whatever its row or column is given afterwards
+    for si in 0..2usize {
+        let ws = book.get_sheet_mut(&si).unwrap();
+        for j in 0..rng.range(0, 12) {
+            let (c, r) = (rng.range(1, 26), rng.range(1, 60));
+            if ws.get_cell((c, r)).is_none() {
+                ws.get_cell_mut((c, r)).set_value_string(format!("plain{}", j));
+                o.count("plain-cells-before-row-column-formatting", 1);
+            }
+        }
+    }
     for si in 0..2usize {
         let ws = book.get_sheet_mut(&si).unwrap();
         for _ in 0..rng.range(0, 3) {
